@@ -58,11 +58,19 @@ def enc_val(v):
     return {"other": type(v).__name__}
 
 
-def dec_val(j):
+def dec_val(j, np_scalars=False):
+    """`np_scalars`: integers and floats arrive as numpy scalars of the widest type (what a value
+    taken out of a pandas DataFrame is) instead of Python int / float — the same numbers"""
     import pandas as pd
 
     if j is None:
         return None
+    if np_scalars and ("i" in j or "f" in j):
+        import numpy as np
+
+        if "i" in j:
+            return np.int64(j["i"]) if -(2**63) <= j["i"] < 2**63 else j["i"]
+        return np.float64(bits2f(j["f"]))
     if "i" in j:
         return j["i"]
     if "s" in j:
